@@ -248,7 +248,7 @@ impl Model for Hist {
             }
             if al.close_account {
                 v.push(Action::CloseAccount { u });
-                if al.transfer {
+                if al.transfer && act::cur_account(&self.w, s, u) != self.w.users[u].account {
                     v.push(Action::CloseOriginal { u });
                 }
             }
